@@ -202,8 +202,13 @@ func execC04(c c04Case) (out c04Outcome, err error) {
 		if len(entries) != released || len(got) != released {
 			return out, fmt.Errorf("%s: the pacer released %d hits and then said stop; %d started, %d results", what, released, len(entries), len(got))
 		}
-		// no start after the stop answer unless it was released (and possibly waiting for a worker) before
-		_ = stopAt
+		// when the pacer answers stop, every hit it released has started already (a release is handed to a worker
+		// before the pacer is asked again): nothing starts after that instant
+		for i, e := range entries {
+			if e.After(stopAt) {
+				return out, fmt.Errorf("%s: hit #%d started at +%s, after the pacer had said stop at +%s", what, i+1, e.Sub(t0), stopAt.Sub(t0))
+			}
+		}
 	case d > 0:
 		out.endedBy = "duration"
 		// every released hit started (nothing stops the tick hand-over), at most one of them after the deadline
@@ -297,7 +302,16 @@ func TestC04Loop(t *testing.T) {
 		}
 		c.MaxWorkers = uint64(rapid.IntRange(1, 8).Draw(t, "max"))
 		c.Workers = uint64(rapid.IntRange(0, 8).Draw(t, "workers"))
+		if rapid.IntRange(0, 9).Draw(t, "bigpool") == 0 {
+			c.MaxWorkers = uint64(rapid.SampledFrom([]int{255, 256, 257, 300, 600}).Draw(t, "bigmax"))
+			c.Workers = c.MaxWorkers - uint64(rapid.IntRange(0, 1).Draw(t, "bigless"))
+			// enough back-to-back releases of slow hits to occupy the whole pool, and a few more
+			c.Waits = make([]int64, int(c.MaxWorkers)+rapid.IntRange(1, 40).Draw(t, "bigextra"))
+		}
 		nl := rapid.IntRange(0, 4).Draw(t, "nlat")
+		if c.MaxWorkers >= 255 {
+			nl, c.Latency = 0, []int64{120e9}
+		}
 		for i := 0; i < nl; i++ {
 			c.Latency = append(c.Latency, rapid.OneOf(rapid.SampledFrom([]int64{0, 1, 1e6, 1e9, 120e9}), rapid.Int64Range(0, 200e6)).Draw(t, fmt.Sprintf("lat%d", i)))
 		}
